@@ -748,6 +748,9 @@ def _context_probe(mods, out, show, act):
                         setattr(y, pn, 1)            # the same start in every context, set outside of any access
                     except Exception:
                         continue
+                    start = {'y': yn, 'x': cname.split(':', 1)[1].split('.')[0] if x is not None else None, 'm': m, 'v': jtext(2),
+                             'members': [[mm, jtext(canon(y.parameters[q].value))] for mm, q in members],
+                             'struct': [[mm, jtext(canon(sv))] for mm, sv in dict(y.parameters[s].value).items()]}
                     if x is None:
                         hook(None, None, None, x=None)
                     else:
@@ -760,7 +763,7 @@ def _context_probe(mods, out, show, act):
                             _HOOKS.remove(hook)
                         if not fired:
                             continue
-                    out.append([key, cname, show(y, s, members) if fired == ['ok'] else fired])
+                    out.append([key, cname, show(y, s, members) if fired == ['ok'] else fired, start])
 
 
 def run_op(op, ex):
@@ -898,9 +901,11 @@ def preload():
 
 
 def _child(func, args, wfd):
+    import gc
     import pickle
     import traceback
     try:
+        gc.freeze()       # what the parent holds is never collected here: the collector does not touch (and copy) its pages
         try:
             with time_limit(CASE_LIMIT):
                 out = ('ok', func(*args))
@@ -1945,7 +1950,9 @@ def requests_for(program, init, steps, second=None):
         {'p': 'C09', 'k': 'judge_write', 'pairs': sorted(wpairs)},
         # (step, module, member, action) -> what the module shows afterwards, in every context it was done in
         {'p': 'C09', 'k': 'judge_ctx', 'pairs': sorted({(f'{i}:{key}', jtext(res)) for i, st in enumerate(steps)
-                                                        for key, _, res in st.get('ctx') or []})},
+                                                        for key, _, res, _ in st.get('ctx') or []})},
+        # the model of the struct parameter callbacks (Klass/StructRW.lean) has to predict what the module shows
+        {'p': 'C09', 'k': 'ctx_model', 'probes': [start for st in steps for _, _, _, start in st.get('ctx') or []]},
     ]
     first = at_creation(steps)
     laters = []
@@ -1978,8 +1985,8 @@ def first_diff(model, impl):
 def evaluate(ctx, program, init, steps, second, answers, laters):
     """-> (disagreement or None, [violations])"""
     it = iter(answers)
-    model, jrun, jval, jwrite, jctx = next(it), next(it), next(it), next(it), next(it)
-    for a in (model, jrun, jval, jwrite, jctx):
+    model, jrun, jval, jwrite, jctx, mctx = next(it), next(it), next(it), next(it), next(it), next(it)
+    for a in (model, jrun, jval, jwrite, jctx, mctx):
         if 'driver_error' in a:
             raise RuntimeError(f'driver error: {a}')
     viols = []
@@ -2019,6 +2026,15 @@ def evaluate(ctx, program, init, steps, second, answers, laters):
                 dis = {'case': program, 'model': [g for g in m['part'] if g not in objpart],
                        'impl': [g for g in objpart if g not in m['part']], 'at': where, 'owner': 'sharing partition'}
                 break
+    if ctx.model_ok and dis is None:
+        probes = [(i, e) for i, st in enumerate(steps) for e in st.get('ctx') or []]
+        for (i, (key, cname, res, start)), pred in zip(probes, mctx['shown']):
+            members = [m for m, _ in start['members']]
+            impl = res if res[0] != 'ok' else \
+                [[[m, jtext(canon(v))] for m, v in zip(members, res[1])], sorted([m, jtext(canon(v))] for m, v in res[1][-1].items())]
+            if res[0] == 'ok' and impl != [pred[0], sorted(pred[1])]:
+                dis = {'case': program, 'model': pred, 'impl': impl, 'at': i, 'owner': f'{key} {cname} (member update of a struct parameter)'}
+                break
     if jrun['bad'] is not None:
         i, owners = jrun['bad']
         op = steps[i]['op']
@@ -2039,7 +2055,7 @@ def evaluate(ctx, program, init, steps, second, answers, laters):
                       f'datatype of the instance written to: {bad[:4]}', 'case': program, 'detail': {'params': bad}})
     if jctx['bad']:
         i, key = jctx['bad'][0].split(':', 1)
-        seen = [[c, r] for k, c, r in steps[int(i)].get('ctx') or [] if k == key]
+        seen = [[c, r] for k, c, r, _ in steps[int(i)].get('ctx') or [] if k == key]
         viols.append({'sig': 'C09:behaviour-depends-on-access-to-another-module',
                       'what': f'after operation {i}: what {key.rsplit(":", 1)[0]} shows after the same member update ({key.rsplit(":", 1)[1]}) '
                               f'depends on which other module is being accessed meanwhile: {json.dumps(seen)[:400]}',
@@ -2179,6 +2195,8 @@ def run(ctx):
         nmut = sum(1 for st in steps if st['op']['op'] == 'mutate' and st['outcome'] == 'ok')
         for st in steps:
             res.count('op.%s.%s' % (st['op']['op'], st['outcome']))
+            for _, cname, _, _ in st.get('ctx') or []:
+                res.count('context-probe.' + ('alone' if cname == 'alone' else 'inside-' + cname.rsplit('.', 1)[1].split('_')[0] + '-of-another-module'))
             if st['op']['op'] == 'class':
                 if 'Feature' in (st.get('mro') or [])[1:2] or any(b in BUILTIN_MIXINS for b in st['op']['bases']):
                     res.count('class.' + ('feature' if 'Feature' in (st.get('mro') or [])[1:2] else 'uses-control-mixin'))
@@ -2187,6 +2205,8 @@ def run(ctx):
                         res.count('decl.module-property.' + d['k'])
                     else:
                         res.count('decl.' + d['k'] + ('' if d.get('inherit', True) else '.noinherit'))
+                    if d['k'] == 'param' and d.get('dtkw'):
+                        res.count('decl.datatype-properties-as-keywords')
                     if d['k'] == 'param' and d.get('dt'):
                         res.count('decl.datatype.' + str(d['dt']['t'] if isinstance(d['dt'], dict) else d['dt']))
             elif st['op']['op'] == 'mutate':
